@@ -81,6 +81,38 @@ Theorem authority_covered :
     end.
 Proof. exact authority_matched_spec. Qed.
 
+(** strict SNI, the legacy predicate: the authority, its ":digits" suffix
+    stripped, equals the (lower-case) server name up to the ASCII case of the
+    authority — nothing shorter, nothing longer *)
+Theorem authority_matches_sni_exact :
+  forall authority sni,
+    authority_matches_sni authority sni = true <-> map lower (strip_port authority) = sni.
+Proof. exact authority_matches_sni_spec. Qed.
+
+(** the decision at the call site (read from route_from_request on every run):
+    a request that goes on to routing on a strict listener with a server name
+    has an authority covered by a name of the served certificate (or, when no
+    names were recorded, equal to the server name); every rejected request is
+    on a strict listener, with a server name, and NOT so covered *)
+Theorem strict_accepts_only_covered :
+  forall strict sni names authority,
+    strict_decision strict sni names authority = true ->
+    strict = false \/ sni = None \/
+    (exists ns e, names = Some ns /\ In e ns /\ covers_spec (host_of_authority authority) e) \/
+    (exists s, names = None /\ sni = Some s /\ map lower (strip_port authority) = s).
+Proof. exact strict_decision_spec. Qed.
+
+Theorem strict_rejects_only_uncovered :
+  forall strict sni names authority,
+    strict_decision strict sni names authority = false ->
+    strict = true /\ exists s, sni = Some s /\
+      match names with
+      | Some ns => host_of_authority authority = [] \/
+                   forall e, In e ns -> ~ covers_spec (host_of_authority authority) e
+      | None => map lower (strip_port authority) <> s
+      end.
+Proof. exact strict_decision_rejects. Qed.
+
 (** ** non-vacuity *)
 Definition n_a_com : bytes := [97; 46; 99; 111; 109]%N.
 Definition n_star_a_com : bytes := [42; 46; 97; 46; 99; 111; 109]%N.
@@ -115,3 +147,18 @@ Example replace_nonvacuous :
   option_map snd (resolve (fun _ _ => false) (fst (replace_cert (fun _ => false) r (Some c2) (Some [1%N]))) n_a_com) = Some [2%N] /\
   aget [1%N] (store (fst (replace_cert (fun _ => false) r (Some c2) (Some [1%N])))) = None.
 Proof. cbv zeta. repeat split; vm_compute; reflexivity. Qed.
+
+(** the strict decision takes both values on a strict listener; a longer and a
+    shorter authority are not the server name *)
+Example strict_nonvacuous :
+  let a443 := n_a_com ++ [58; 52; 52; 51]%N in                               (* "a.com:443" *)
+  strict_decision true (Some n_a_com) (Some [n_star_a_com]) n_x_a_com = true /\
+  strict_decision true (Some n_a_com) (Some [n_star_a_com]) n_a_com = false /\
+  strict_decision true (Some n_a_com) None a443 = true /\
+  strict_decision true (Some n_a_com) None n_x_a_com = false /\
+  strict_decision false (Some n_a_com) (Some []) n_x_a_com = true /\
+  authority_matches_sni (n_a_com ++ [46; 101]%N) n_a_com = false /\         (* "a.com.e" *)
+  authority_matches_sni [97; 46; 99; 111]%N n_a_com = false /\              (* "a.co" *)
+  authority_matches_sni [65; 46; 67; 79; 77; 58; 56]%N n_a_com = true.      (* "A.COM:8" *)
+Proof. repeat split; vm_compute; reflexivity. Qed.
+
